@@ -426,13 +426,20 @@ func cmdCheck(args []string) int {
 			continue
 		}
 		seenRaceMsg[p.v.Msg] = true
-		rr, logText, err := nativeReplay(p.pkgDir, []replayItem{it}, tmp, true)
-		for k, v := range rr {
-			replayed[k] = v
-		}
-		raceLogs[it.ID] = logText
-		if err != nil && len(rr) == 0 {
-			inconcl = append(inconcl, "native race replay: "+err.Error()+": "+lastLines(logText, 12))
+		// the native schedule is the Go runtime's: up to four attempts
+		for attempt := 0; attempt < 4; attempt++ {
+			rr, logText, err := nativeReplay(p.pkgDir, []replayItem{it}, tmp, true)
+			for k, v := range rr {
+				replayed[k] = v
+			}
+			raceLogs[it.ID] = logText
+			if err != nil && len(rr) == 0 {
+				inconcl = append(inconcl, "native race replay: "+err.Error()+": "+lastLines(logText, 12))
+				break
+			}
+			if raceReportMatches(logText, p.v.Msg) {
+				break
+			}
 		}
 	}
 	replaySec := time.Since(replayStart).Seconds()
@@ -709,13 +716,17 @@ func isRaceMsg(msg string) bool { return strings.HasPrefix(msg, "data race: ") }
 var raceSiteRe = regexp.MustCompile(`(?:read|write) in (\S+)(?: (\S+\.go:\d+))?`)
 
 // raceReportMatches reports whether the output of a `go test -race` run has a
-// DATA RACE report that names both access sites of the symbolic candidate
-// (by file:line where the SSA instruction has a position, else by function).
+// DATA RACE report between two accesses made by code of the tree under test
+// (the innermost frame of neither access is in a harness file) that involves
+// at least one of the two access sites of the symbolic candidate (by
+// file:line where the SSA instruction has a position, else by function).
+// The native schedule is the Go runtime's, so the partner access it catches
+// may be another unsynchronised access to the same variable.
 func raceReportMatches(logText, msg string) bool {
 	var tokens []string
 	for _, m := range raceSiteRe.FindAllStringSubmatch(msg, -1) {
 		if m[2] != "" {
-			tokens = append(tokens, "/"+m[2])
+			tokens = append(tokens, "/"+m[2]+" ")
 			continue
 		}
 		name := m[1]
@@ -725,7 +736,7 @@ func raceReportMatches(logText, msg string) bool {
 		if i := strings.Index(name, "$"); i >= 0 {
 			name = name[:i]
 		}
-		tokens = append(tokens, "."+name)
+		tokens = append(tokens, "."+name+"(")
 	}
 	if len(tokens) < 2 {
 		return false
@@ -734,12 +745,29 @@ func raceReportMatches(logText, msg string) bool {
 		if i := strings.Index(block, "=================="); i >= 0 {
 			block = block[:i]
 		}
-		ok := true
-		for _, t := range tokens {
-			ok = ok && strings.Contains(block, t)
+		if i := strings.Index(block, "\nGoroutine "); i >= 0 {
+			block = block[:i] // only the two access stacks
 		}
-		if ok {
-			return true
+		// innermost frames of the two accesses: the file line after each
+		// "... at 0x... by goroutine N:" header
+		lines := strings.Split(block, "\n")
+		harnessTop := false
+		tops := 0
+		for i, l := range lines {
+			if strings.Contains(l, " by goroutine ") && i+2 < len(lines) {
+				tops++
+				if strings.Contains(lines[i+2], "/zz_verif_") {
+					harnessTop = true
+				}
+			}
+		}
+		if tops < 2 || (harnessTop && os.Getenv("GOSMT_RACE_ALL") != "1") {
+			continue
+		}
+		for _, t := range tokens {
+			if strings.Contains(block+" ", t) {
+				return true
+			}
 		}
 	}
 	return false
